@@ -200,6 +200,14 @@ def _c17_vm_sample(d, tier, coq, build, want=300):
         for l in f:
             i, _, o = l.rstrip("\n").partition(" ")
             outs[i] = o
+    # floor on the model side: the acceptor must judge most of the exponential-backoff points
+    nb = sum(1 for l in open(os.path.join(d, "cases.txt")) if l.split(" ", 2)[1:2] == ["B"])
+    with open(os.path.join(d, "cases.txt")) as f:
+        bids = {l.split(" ", 1)[0] for l in f if l.split(" ", 2)[1:2] == ["B"]}
+    unj = sum(1 for i in bids if outs.get(i, "").startswith("UNJUDGED"))
+    floor_msgs = []
+    if nb and unj * 10 > nb:
+        floor_msgs.append("model leaves %d of %d exponential-backoff points unjudged (more than 10%%)" % (unj, nb))
     quota = {"T": 90, "A": 60, "W": 50, "D": 40, "B": 60}
     if small:
         quota = {k: v // 5 for k, v in quota.items()}
@@ -238,8 +246,8 @@ def _c17_vm_sample(d, tier, coq, build, want=300):
         return ["vm_compute re-evaluation of %d sampled cases inside Coq disagrees with the extracted runner (or does not type-check): %s"
                 % (len(goals), p.stdout[-1200:])]
     if len(goals) < want // 2:
-        return ["vm_compute sample too small: %d goals" % len(goals)]
-    return []
+        return ["vm_compute sample too small: %d goals" % len(goals)] + floor_msgs
+    return floor_msgs
 
 
 CONFIG = {
